@@ -131,12 +131,16 @@ theorem max_eq (l : List FV) : mathMax l = Spec.max l := by
     · have h' : isNaN a = false := by simpa using h
       simp [h', max2_negInf a h']
   | a :: b :: rest =>
-    simp only [mathMax, Spec.max, List.any_cons, List.foldl_cons]
+    simp only [mathMax, Spec.max, List.any_cons, List.foldl_cons, foldFlag_flag]
     by_cases h : isNaN a = true
     · simp [h]
     · have h' : isNaN a = false := by simpa using h
-      rw [max2_negInf a h', foldNaN_eq goMax Spec.max2 goMax_eq max2_cases (b :: rest) a h']
-      simp [h', List.any_cons, List.foldl_cons]
+      by_cases hr : (isNaN b || rest.any isNaN) = true
+      · simp [h', hr]
+      · have hr' : (b :: rest).any isNaN = false := by simpa using hr
+        have hr'' : (isNaN b || rest.any isNaN) = false := by simpa using hr
+        rw [max2_negInf a h', foldFlag_val goMax Spec.max2 goMax_eq max2_cases (b :: rest) a _ h' hr']
+        simp [h', hr'', List.foldl_cons]
 
 theorem min_eq (l : List FV) : mathMin l = Spec.min l := by
   match l with
@@ -148,43 +152,24 @@ theorem min_eq (l : List FV) : mathMin l = Spec.min l := by
     · have h' : isNaN a = false := by simpa using h
       simp [h', min2_posInf a h']
   | a :: b :: rest =>
-    simp only [mathMin, Spec.min, List.any_cons, List.foldl_cons]
+    simp only [mathMin, Spec.min, List.any_cons, List.foldl_cons, foldFlag_flag]
     by_cases h : isNaN a = true
     · simp [h]
     · have h' : isNaN a = false := by simpa using h
-      rw [min2_posInf a h', foldNaN_eq goMin Spec.min2 goMin_eq min2_cases (b :: rest) a h']
-      simp [h', List.any_cons, List.foldl_cons]
+      by_cases hr : (isNaN b || rest.any isNaN) = true
+      · simp [h', hr]
+      · have hr' : (b :: rest).any isNaN = false := by simpa using hr
+        have hr'' : (isNaN b || rest.any isNaN) = false := by simpa using hr
+        rw [min2_posInf a h', foldFlag_val goMin Spec.min2 goMin_eq min2_cases (b :: rest) a _ h' hr']
+        simp [h', hr'', List.foldl_cons]
 
-theorem convertedLoop_eq (l : List FV) (h : l.dropLast.any isNaN = false) : convertedLoop l = l.length := by
-  induction l with
-  | nil => rfl
-  | cons v rest ih =>
-    cases rest with
-    | nil => by_cases hv : isNaN v = true <;> simp [convertedLoop, hv]
-    | cons w rest' =>
-      simp only [List.dropLast_cons₂, List.any_cons, Bool.or_eq_false_iff] at h
-      simp only [convertedLoop, h.1, Bool.false_eq_true, if_false] at ih ⊢
-      rw [ih h.2]; simp; omega
-
-/-- C13.maxmin_tonumber_partial — Math.max/min call ToNumber on every argument (§15.8.2.11–12: "calls
-    ToNumber on each of the arguments") provided no argument other than the last converts to NaN.
-    (Full statement `maxMinConverted l = l.length` for all l is false: Dev maxmin_tonumber_skipped.) -/
-theorem maxmin_tonumber_partial (l : List FV) (h : l.dropLast.any isNaN = false) :
-    maxMinConverted l = Spec.maxMinConverted l := by
+/-- C13.maxmin_tonumber — Math.max/min call ToNumber on every argument (§15.8.2.11–12: "calls ToNumber on
+    each of the arguments"), whatever the arguments convert to. -/
+theorem maxmin_tonumber (l : List FV) : maxMinConverted l = Spec.maxMinConverted l := by
   match l with
   | [] => rfl
   | [a] => rfl
-  | a :: b :: rest =>
-    have := convertedLoop_eq (a :: b :: rest) h
-    simp only [List.dropLast_cons₂, List.any_cons, Bool.or_eq_false_iff] at h
-    simp only [convertedLoop, h.1, Bool.false_eq_true, if_false] at this
-    simp only [maxMinConverted, h.1, Bool.false_eq_true, if_false, Spec.maxMinConverted]
-    exact this
-
-/-- Dev maxmin_tonumber_skipped witness: Math.max(NaN, o) never calls o.valueOf -/
-example : maxMinConverted [.nan, one] ≠ Spec.maxMinConverted [.nan, one] := by decide
-/-- non-vacuity of the hypothesis -/
-example : ([one, zero, .nan] : List FV).dropLast.any isNaN = false := by decide
+  | a :: b :: rest => simp [maxMinConverted, Spec.maxMinConverted]; omega
 
 /-! ## atan2 (§15.8.2.5) -/
 
@@ -305,11 +290,14 @@ example : ∀ r ∈ [97, 37, 43, 0xE9, 0x20AC, 0x1F600, 0x10FFFF], Scalar r := b
 /-! ## escape / unescape (§B.2.1–2) -/
 
 /-- C13.escape_roundtrip — for every well-formed string s (any Unicode scalar values, incl. characters
-    outside the BMP; held, as otto holds it, as the Go string `encodeRunes rs`), unescape(escape(s)) = s. -/
+    outside the BMP; held, as otto holds it, as the Go string `encodeRunes rs`), unescape(escape(s)) is the
+    Go-string-held string with the same code units, i.e. s. -/
 theorem escape_roundtrip (rs : List Nat) (h : ∀ r ∈ rs, Scalar r) :
-    unescape (.go (escape (.go (encodeRunes rs)))) = encodeRunes rs := by
-  simp only [unescape, escape, SV.string, bytesOfUnits]
-  rw [escape_unescape_units rs h _ _ (Nat.le_refl _) (Nat.le_refl _), utf16Decode_encode rs h]
+    unescape (.go (escape (.go (encodeRunes rs)))) = .go (encodeRunes rs) := by
+  simp only [unescape, escape, SV.string]
+  rw [escape_unescape_units rs h _ _ (Nat.le_refl _) (Nat.le_refl _)]
+  have hw : hasLone (utf16Encode rs) = false := hasLone_encode rs h
+  simp only [utf16Value, hw, Bool.false_eq_true, if_false, bytesOfUnits, utf16Decode_encode rs h]
 
 /-- non-vacuity: "aé€ %@" and U+1F600 are scalar values -/
 example : ∀ r ∈ [97, 0xE9, 0x20AC, 32, 37, 64, 0x1F600], Scalar r := by simp [Scalar]
@@ -325,10 +313,9 @@ example : logFrexpAmd64 1 (-1074) ≠ .fin false 1 (-1074) := by decide
 /-- atan2_underflow: Math.atan2(-5e-324, -2) is +π; §15.8.2.5 has y<0 ⇒ result < 0 -/
 example : encode (mathAtan2 Driverless.lib (decode 0x8000000000000001) (decode 0xC000000000000000)) = encode pi := by
   decide +kernel
-/-- unescape_lone_surrogate: "%uD800" -/
-example : unitsOfBytes (unescape (.go [37,117,68,56,48,48])) ≠ Spec.unescape [37,117,68,56,48,48] := by decide
 /-- lone_surrogate_input -/
 example : unitsOfBytes (escape (.u16 [0xD800])) ≠ Spec.escape [0xD800] := by decide
+example : (unescape (.u16 [0xD800])).units ≠ Spec.unescape [0xD800] := by decide
 example : (decodeURI false (.u16 [0xD800])).map unitsOfBytes ≠ Spec.decodeURIComponent [0xD800] := by decide
 
 end OttoVerif.C13.Thm
